@@ -465,8 +465,9 @@ func C17(c *core.Ctx) {
 	sub2 := core.NewCtx("C02", c.Tier, c.Seed, p, c.VerifDir)
 	sub2.Quiet = true
 	c02Matching(sub2)
+	c02MapEquality(sub2)
 	for _, o := range sub2.Obligations() {
-		if o.Rule == "C02-R1" {
+		if o.Rule == "C02-R1" || o.Rule == "C02-R6" {
 			c.ObAt("C17-R5", o.Key, o.Pos, o.OK, o.Msg)
 		}
 	}
